@@ -195,7 +195,15 @@ class Exec:
         if isinstance(node, (ast.ListComp, ast.GeneratorExp)):
             return self.comprehension(node, env)
         if isinstance(node, ast.JoinedStr):
-            return ("const", "<f-string>")
+            parts = []
+            for v in node.values:
+                if isinstance(v, ast.Constant):
+                    parts.append(("const", v.value))
+                elif isinstance(v, ast.FormattedValue):
+                    parts.append(self.ev(v.value, env))
+            if all(is_const(x) for x in parts):
+                return ("const", "".join(str(x[1]) for x in parts))
+            return ("fstr", tuple(parts))
         if isinstance(node, ast.Starred):
             self.fail(node, "starred expression")
         self.fail(node, "expression outside subset")
@@ -453,7 +461,7 @@ class Exec:
         """Helpers are inlined only when their body is loop-free apart from loops this executor can handle, and they
         do not use constructs the executor rejects; checked by trying, so here only the cheap syntactic exclusions."""
         for n in ast.walk(fn):
-            if isinstance(n, (ast.While, ast.Try, ast.Yield, ast.YieldFrom, ast.Global, ast.Nonlocal, ast.Lambda, ast.Await)):
+            if isinstance(n, (ast.While, ast.Yield, ast.YieldFrom, ast.Global, ast.Nonlocal, ast.Lambda, ast.Await)):
                 return False
         if fn.args.vararg or fn.args.kwarg:
             return False
@@ -617,6 +625,9 @@ class Exec:
             return self.map_loop(s, it, env, cont)
         if isinstance(s, (ast.Import, ast.ImportFrom)):
             return cont(env)
+        if isinstance(s, ast.Try):
+            # exceptions are not modelled: the body (then else / finally) runs; handlers are what happens when it raises
+            return self.block(list(s.body) + list(s.orelse) + list(s.finalbody) + rest, env, k)
         if isinstance(s, ast.With):
             # context managers (seeding, no_grad, ..) are effects around the body; the body is executed in place
             e2 = dict(env)
@@ -862,6 +873,13 @@ def alpha_source(fn):
 
     body = [R().visit(copy.deepcopy(st)) for st in strip_doc(fn.body)]
     return "\n".join(ast.unparse(st) for st in body)
+
+
+def parse_expr(src, env=None):
+    """The value tree of a Python expression given as source text (for stating what a translator expects)."""
+    tree = ast.parse("", mode="exec")
+    ex = Exec(tree, "<expected>")
+    return ex.ev(ast.parse(src, mode="eval").body, dict(env or {}))
 
 
 def find_nodes(v, pred, acc=None):
@@ -1130,6 +1148,8 @@ def show(v):
         return "%s[%s]" % (show(v[1]), show(v[2]))
     if k == "slice":
         return "%s:%s:%s" % tuple(show(x) for x in v[1:])
+    if k == "fstr":
+        return "f'" + "".join(str(x[1]) if is_const(x) else "{%s}" % show(x) for x in v[1]) + "'"
     if k == "call":
         return "%s(%s)" % (show(v[1]), ", ".join([show(a) for a in v[2]] + ["%s=%s" % (n, show(x)) for n, x in v[3]]))
     if k in ("tuple", "list", "gen"):
